@@ -51,7 +51,7 @@ class C08(Check):
     thorough = (8000, 16)
 
     def __init__(self):
-        self.feat = gen.Features(big=False, exotic_seqs=False, extra_keys=0.0, name_clash=0.0, unique_shorts=True, utf8_bytes=True, omit=0.2, max_depth=4)
+        self.feat = gen.Features(big=False, exotic_seqs=False, extra_keys=0.0, name_clash=0.0, unique_shorts=True, utf8_bytes=True, omit=0.2, max_depth=4, dict_prims=0.35)
 
     def selftest(self):
         B.selftest()
